@@ -7,7 +7,9 @@ PREFIXES = ["", " ", "\n", "\n\n  ", "é ", "'é\n中' | ", "\"\U0001f600\".", "
 FAILING_CALLS = ["abs(@)\n", "nope(@)\n\n", "a[::0].b", "foo[::0]\n  .bar\n  .baz", "a[::0][0]", "a[::0][?b]", "[::0].a | b", "abs('x')", "abs(a, b)", "abs()", "nope(@)", "length(`1`)", "a[::0]", "sort_by(@, &type(@) == `\"x\"`)", "max_by(@, &@)",
                  "length(abs(foo))", "nope(keys(@))", "abs(foo,\n  to_number(bar))", "join(', ', [abs(`1`), 'x'])", "map(&nope(@), @)",
                  "sum(@)", "avg(@)", "merge(@, `1`)", "not_null()", "sort_by(a, &b)", "min_by(a, &`[1]`)", "[0][::0]", "foo | bar[1:2:0]",
-                 "contains(@)", "starts_with(@, `1`)", "to_string(&a)", "keys(a)[0].length(@, @)"]
+                 "contains(@)", "starts_with(@, `1`)", "to_string(&a)", "keys(a)[0].length(@, @)",
+                 "merge(`{}`, `{\"a\": 1}`, `1`)", "merge(`{}`, `{}`, `{}`, 'x')", "merge(`{}`, @)", "merge(`{}`, `{}`, &a)", "merge(`{}`, `{}`, `null`, `{}`)",
+                 "merge(`{}`,\n `{}`,\n `[]`)", "not_null(`null`, `null`) | abs(@)", "merge(`{}`, `{}`) | merge(@, @, `true`)", "map(&merge(`{}`, `{}`, @), `[1]`)"]
 DOCS = [None, 1, "x", [1, 2], {"a": [{"b": 1}, {"b": "x"}], "foo": -3, "bar": "2"}, [1e308, 1e308], [], [[3, 1], [2]], {"a": 1}]
 
 
@@ -60,6 +62,13 @@ class P(framework.Prop):
                 e = pre + e
             out.append("search %s %s" % (wire.s(e), wire.val(gen.rand_doc(rng, 2))))
         return out
+
+    def oracle(self, case, iobs):
+        """A failure of search must be a runtime error: a parse-class error fabricated at search time violates the property
+        (the one recorded class is listed as a known finding)."""
+        if case.startswith("search ") and iobs.startswith("ERR fabricated"):
+            return "search failed with a parse-class error built at search time: %s" % iobs
+        return None
 
     def nontrivial(self, case, mobs):
         return mobs.startswith("ERR") or case.startswith("render ")
